@@ -49,10 +49,19 @@ def sorter(args):
             ind.costs_signed = common.sym_costs(ctx, 'i%d' % i, m, marker)
             inds.append(ind)
         costs = [list(i.costs_signed) for i in inds]
+        if args.get('container') == 'ndarray':
+            # signed costs stored as numpy arrays (object arrays of proxies when symbolic, float arrays in replays):
+            # the real comparator runs (no summary); the ranks must be those of the ORIGINAL values, which must stay
+            import numpy as np
+            for ind in inds:
+                ind.costs_signed = np.array(list(ind.costs_signed), dtype=object if ctx.symbolic else float)
         sel.fast_nondominated_sorting(inds)
         by_id = {i.id: i for i in inds}
         fr = [by_id[k].features['front_number'] for k in range(n)]
         ctx.output('fronts', [(-1 if f is None else f) for f in fr])
+        if args.get('container') == 'ndarray':
+            ctx.check('stored-costs-not-modified-by-sorting',
+                      Or(*[ops.differs(a, b, 0.0) for ind, c in zip(inds, costs) for a, b in zip(list(ind.costs_signed), c)]))
         ctx.check('all-ranked', any(f is None for f in fr))
         if any(f is None for f in fr):
             return
@@ -86,9 +95,10 @@ def sorter(args):
 def configs(tier):
     out = []
 
-    def add(n, m, crowd=False, split=None, marker='bool'):
-        out.append({'name': 'sort-n%d-m%d%s%s' % (n, m, '-crowd' if crowd else '', '' if marker == 'bool' else '-' + marker),
-                    'task': 'sorter', 'args': {'n': n, 'm': m, 'crowd': crowd, 'marker': marker},
+    def add(n, m, crowd=False, split=None, marker='bool', container=None):
+        out.append({'name': 'sort-n%d-m%d%s%s%s' % (n, m, '-crowd' if crowd else '', '' if marker == 'bool' else '-' + marker,
+                                                    '-' + container if container else ''),
+                    'task': 'sorter', 'args': {'n': n, 'm': m, 'crowd': crowd, 'marker': marker, 'container': container},
                     'weight': (n ** n) * m, 'split': split, 'engine': {'validate': 60}})
     for n in (1, 2, 3):
         for m in (1, 2):
@@ -97,6 +107,8 @@ def configs(tier):
     add(4, 2, split=48)
     add(3, 1, crowd=True)
     add(3, 2, marker='real')
+    add(3, 2, marker='real', container='ndarray', split=32)
+    add(3, 1, crowd=True, marker='real', container='ndarray')
     if tier == 'thorough':
         add(5, 2, split=96)
         add(4, 3, split=64)
@@ -104,4 +116,6 @@ def configs(tier):
         add(5, 1, split=48)
         add(6, 1, split=96)
         add(3, 2, crowd=True)
+        add(4, 2, marker='real', container='ndarray', split=64)
+        add(3, 2, crowd=True, marker='real', container='ndarray', split=32)
     return out
